@@ -22,6 +22,8 @@ import (
 	"github.com/form3tech-oss/f1/v2/internal/log"
 	"github.com/form3tech-oss/f1/v2/internal/options"
 	"github.com/form3tech-oss/f1/v2/internal/progress"
+	"github.com/form3tech-oss/f1/v2/internal/trigger/users"
+	"github.com/form3tech-oss/f1/v2/internal/ui"
 	"github.com/form3tech-oss/f1/v2/internal/verifh/kit"
 	"github.com/form3tech-oss/f1/v2/internal/verifh/runkit"
 	"github.com/form3tech-oss/f1/v2/internal/workers"
@@ -32,6 +34,7 @@ import (
 type obs struct {
 	mu       sync.Mutex
 	ids      []int64
+	raw      []string // the identifiers as the invocations observed them, kept as they were handed over
 	started  atomic.Int64
 	inflight atomic.Int64
 	hwm      atomic.Int64
@@ -51,6 +54,7 @@ func (o *obs) enter(t *f1testing.T) {
 	id, _ := strconv.ParseInt(t.Iteration, 10, 64)
 	o.mu.Lock()
 	o.ids = append(o.ids, id)
+	o.raw = append(o.raw, t.Iteration)
 	if o.live[t] {
 		o.shared.Store(true)
 	}
@@ -68,7 +72,16 @@ func (o *obs) leave(t *f1testing.T) {
 func (o *obs) idsDesc() []int64 {
 	o.mu.Lock()
 	defer o.mu.Unlock()
-	ids := append([]int64(nil), o.ids...)
+	// the identifiers are read after the run, from what the invocations were given: an identifier
+	// observed by an invocation is that invocation's for good
+	ids := make([]int64, 0, len(o.raw))
+	for k, s := range o.raw {
+		id, err := strconv.ParseInt(s, 10, 64)
+		if err != nil || id != o.ids[k] {
+			id = -int64(k) - 1 // not what the invocation saw when it started: never a valid identifier
+		}
+		ids = append(ids, id)
+	}
 	sort.Slice(ids, func(i, j int) bool { return ids[i] > ids[j] })
 	return ids
 }
@@ -388,6 +401,70 @@ func emit(o *kit.Out, ob *obs, requested, dropped int64, lim bool, maxDiscard in
 
 // ---------------------------------------------------------------- C04: all workers usable (rendezvous) and whole runs
 
+// cliConcurrency: executions through the command line of ONE f1 instance. The run whose workers are
+// counted gives --concurrency explicitly or leaves it out (the documented default is 100); it
+// comes after an execution on the same instance that was given another concurrency - that one's
+// option is its own. All the run's workers, no more and no fewer, execute at the same time.
+func cliConcurrency(o *kit.Out, r *kit.Rand, idx int) {
+	const def = 100
+	earlier := int(kit.Pick(r, 2, 7, 130))
+	explicit := idx%3 == 2
+	want := def
+	if explicit {
+		want = int(kit.Pick(r, 3, 9, 40))
+	}
+	ob := &obs{live: map[*f1testing.T]bool{}}
+	var measuring, ok atomic.Bool
+	rendezvous := make(chan struct{})
+	var once sync.Once
+	inst := f1.New()
+	name := fmt.Sprintf("c04cli%d", idx)
+	inst.Add(name, func(*f1testing.T) f1testing.RunFn {
+		return func(t *f1testing.T) {
+			if !measuring.Load() {
+				return
+			}
+			ob.enter(t)
+			defer ob.leave(t)
+			if ob.inflight.Load() >= int64(want) {
+				once.Do(func() { ok.Store(true); close(rendezvous) })
+			}
+			select {
+			case <-rendezvous:
+			case <-time.After(1500 * time.Millisecond):
+			}
+		}
+	})
+	mode := []string{"users", "constant"}[idx%2]
+	args := func(c int) []string {
+		a := []string{"run", mode, name, "--max-duration", "400ms", "--ignore-dropped"}
+		if mode == "constant" {
+			a = append(a, "--rate", "300/20ms", "--distribution", "none")
+		}
+		if c > 0 {
+			a = append(a, "--concurrency", strconv.Itoa(c))
+		}
+		return a
+	}
+	_, _ = kit.Guard(func() { _ = inst.ExecuteWithArgs(append(args(earlier), "--max-iterations", "5")) })
+	measuring.Store(true)
+	second := args(0)
+	if explicit {
+		second = args(want)
+	}
+	crashed, _ := kit.Guard(func() { _ = inst.ExecuteWithArgs(second) })
+	if crashed {
+		o.Fail("c04-cli-crash", "command-line run crashed")
+		return
+	}
+	o.Count("cli", fmt.Sprintf("%s, second execution on one instance, concurrency explicit=%v", mode, explicit))
+	if !ok.Load() || ob.hwm.Load() > int64(want) {
+		o.Fail("not-all-workers-usable", fmt.Sprintf("f1 %v after f1 %v on the same instance: concurrency %d (explicit=%v, default %d), but at most %d iterations executed at the same time",
+			second, args(earlier), want, explicit, def, ob.hwm.Load()))
+	}
+	o.Case("c04_ok", []string{kit.I(ob.hwm.Load()), kit.I(want), kit.B(ob.shared.Load()), kit.B(ok.Load())}, "T", "cli", mode, "nt")
+}
+
 func TestC04Runs(t *testing.T) {
 	o := kit.Get()
 	defer o.Close()
@@ -399,6 +476,9 @@ func TestC04Runs(t *testing.T) {
 		fileHandles(o, r, dir, rep)
 		fileUsers(o, r, dir, rep)
 		fileUsersThenRate(o, r, dir, rep)
+	}
+	for rep := 0; rep < kit.N(2, 10); rep++ {
+		cliConcurrency(o, r, rep)
 	}
 	n := kit.N(12, 90)
 	for i := 0; i < n; i++ {
@@ -772,6 +852,10 @@ func TestC02Runs(t *testing.T) {
 			held, limit = true, 0
 			nticks = 3
 			script = []int64{r.Range(200000, 600000), 0, 0}
+			if i%2 == 0 {
+				// ... or still pending when the run is cancelled: reported dropped as triggering stops
+				script = []int64{int64(conc), 0, r.Range(200000, 600000)}
+			}
 			o.Count("run", "burst superseded at the end")
 		}
 		ctx, cancel := context.WithCancel(context.Background())
@@ -795,8 +879,14 @@ func TestC02Runs(t *testing.T) {
 			return int(v)
 		}
 		ob := &obs{live: map[*f1testing.T]bool{}}
+		var phase, usersStarted atomic.Int64
 		scenario := func(*f1testing.T) f1testing.RunFn {
 			return func(t *f1testing.T) {
+				if phase.Load() == 0 {
+					usersStarted.Add(1) // an iteration of the users stage: not one of the rate trigger's requests
+					time.Sleep(time.Millisecond)
+					return
+				}
 				ob.enter(t)
 				defer ob.leave(t)
 				if held {
@@ -805,6 +895,22 @@ func TestC02Runs(t *testing.T) {
 			}
 		}
 		trig := &api.Trigger{Trigger: api.NewIterationWorker(15*time.Millisecond, rateFn), Description: "verif"}
+		// as in a config file: a users stage comes first on the run's pool manager, the rate
+		// trigger is the second (and last) thing the run waits for
+		usersFirst := i%4 == 1 || (i%5 == 2 && i%2 == 0)
+		if usersFirst {
+			rateStage := trig.Trigger
+			trig.Trigger = func(c context.Context, out *ui.Output, pm *workers.PoolManager, opts options.RunOptions) {
+				sctx, scancel := context.WithTimeout(c, 50*time.Millisecond)
+				users.NewWorker(conc)(sctx, out, pm, opts)
+				scancel()
+				phase.Store(1)
+				rateStage(c, out, pm, opts)
+			}
+			o.Count("run", "users stage first")
+		} else {
+			phase.Store(1)
+		}
 		cfg := runkit.Config{Mode: "custom", Scenario: scenario, Ctx: ctx,
 			Opts: options.RunOptions{MaxDuration: 5 * time.Second, Concurrency: conc, MaxIterations: limit, IgnoreDropped: true}}
 		out := runkit.DoWithTrigger(cfg, trig)
@@ -823,7 +929,7 @@ func TestC02Runs(t *testing.T) {
 		mu.Unlock()
 		started := ob.started.Load()
 		dropped := int64(sn.DroppedIterationCount)
-		if limit > 0 && uint64(started) >= limit {
+		if limit > 0 && uint64(started+usersStarted.Load()) >= limit {
 			o.Count("run", "limit reached (skipped)")
 			continue
 		}
